@@ -251,6 +251,8 @@ type CallSpec struct {
 	Kind        string    `json:"kind"`
 	Cmds        []CmdSpec `json:"cmds,omitempty"`
 	TTLMs       int       `json:"ttl_ms,omitempty"`
+	TTLs        []int     `json:"ttls_ms,omitempty"` // per-command TTLs for batched cache reads
+	Static      bool      `json:"static_ttl,omitempty"`
 	TimeoutMs   int       `json:"timeout_ms,omitempty"`
 	Cancel      bool      `json:"cancel,omitempty"`
 	CancelAfter int       `json:"cancel_after,omitempty"`
